@@ -1717,6 +1717,9 @@ func (s *Netceptor) handleServiceAdvertisement(data []byte, receivedFrom string)
 	if err != nil {
 		return err
 	}
+	if si.ServiceAdvertisement == nil {
+		return fmt.Errorf("service advertisement has no content")
+	}
 	s.Logger.SanitizedDebug("Received service advertisement from %s\n", si.NodeID)
 	s.serviceAdsLock.Lock()
 	defer s.serviceAdsLock.Unlock()
@@ -1907,6 +1910,11 @@ func (s *Netceptor) runProtocol(ctx context.Context, sess BackendSession, bi *Ba
 	for {
 		select {
 		case data := <-ci.ReadChan:
+			if len(data) == 0 {
+				s.Logger.Warning("Ignoring empty message\n")
+
+				continue
+			}
 			msgType := data[0]
 			if established {
 				switch msgType {
